@@ -61,6 +61,7 @@ type Result struct {
 	KindPairs   int            `json:"kind_pairs_hit"`
 	Mismatches  []Mismatch     `json:"mismatches"`
 	NMismatch   int            `json:"n_mismatches"`
+	MisByStream map[string]int `json:"mismatches_by_stream"`
 	Failures    []Failure      `json:"oracle_failures"`
 	NFailures   int            `json:"n_oracle_failures"`
 	OracleEvals map[string]int `json:"oracle_evaluations"`
@@ -140,10 +141,7 @@ func runDriver(driver string, cases []*Case) (map[string]SX, error) {
 // compare diffs model and implementation observations stream by stream.
 func compare(res *Result, c *Case, model SX) {
 	if model.Kind != 'l' || len(model.L) == 0 || model.L[0].Sym != "res" {
-		res.NMismatch++
-		if len(res.Mismatches) < 40 {
-			res.Mismatches = append(res.Mismatches, Mismatch{c.ID, "driver", c.Cmd.String(), model.String(), c.Real.String(), "tie:driver", c.Rec})
-		}
+		res.mismatch(c, "driver", model.String(), c.Real.String())
 		return
 	}
 	seen := map[string]bool{}
@@ -153,6 +151,10 @@ func compare(res *Result, c *Case, model SX) {
 			name = f.L[0].Sym
 		}
 		seen[name] = true
+		if strings.HasSuffix(name, "-skipped") {
+			res.Compared[name]++
+			continue
+		}
 		mf, ok := model.Field(name)
 		if ok && len(mf.L) == 2 && strings.HasSuffix(name, "acc") || (name == "acc0" || name == "acc1" || name == "acc2") {
 			mf = L(mf.L[0], canonAcc(mf.L[1]))
@@ -164,23 +166,28 @@ func compare(res *Result, c *Case, model SX) {
 			mf, f = dropAccField(mf, "os"), dropAccField(f, "os")
 		}
 		if !ok || mf.String() != f.String() {
-			res.NMismatch++
-			if len(res.Mismatches) < 40 {
-				ms := "<absent>"
-				if ok {
-					ms = mf.String()
-				}
-				res.Mismatches = append(res.Mismatches, Mismatch{c.ID, name, c.Cmd.String(), ms, f.String(), "tie:" + name, c.Rec})
+			ms := "<absent>"
+			if ok {
+				ms = mf.String()
 			}
+			res.mismatch(c, name, ms, f.String())
 		}
 	}
 	for _, f := range model.L[1:] {
-		if f.Kind == 'l' && len(f.L) > 0 && !seen[f.L[0].Sym] {
-			res.NMismatch++
-			if len(res.Mismatches) < 40 {
-				res.Mismatches = append(res.Mismatches, Mismatch{c.ID, f.L[0].Sym, c.Cmd.String(), f.String(), "<absent>", "tie:" + f.L[0].Sym, c.Rec})
-			}
+		if f.Kind == 'l' && len(f.L) > 0 && !seen[f.L[0].Sym] && !seen[f.L[0].Sym+"-skipped"] {
+			res.mismatch(c, f.L[0].Sym, f.String(), "<absent>")
 		}
+	}
+}
+
+func (res *Result) mismatch(c *Case, stream, model, impl string) {
+	res.NMismatch++
+	if res.MisByStream == nil {
+		res.MisByStream = map[string]int{}
+	}
+	res.MisByStream[stream]++
+	if res.MisByStream[stream] <= 6 && len(res.Mismatches) < 90 {
+		res.Mismatches = append(res.Mismatches, Mismatch{c.ID, stream, c.Cmd.String(), model, impl, "tie:" + stream, c.Rec})
 	}
 }
 
